@@ -169,7 +169,7 @@ def real_programs(progs, thorough, seed):
         pr = p["prog"]
         for pool in POOLS[(pr["disc"], pr["it"])]:
             out.append({"pool": pool, "fill": False, "prog": pr, "pidx": i})
-            if thorough and pr["op"] == "drop" and pr["n"] <= 2:
+            if pr["op"] == "drop" and pr["n"] <= (2 if thorough else 1) or (not thorough and pr["op"] == "drop" and pr["n"] == 2 and i % 3 == 0):
                 out.append({"pool": pool, "fill": True, "prog": pr, "pidx": i})
     return out
 
